@@ -108,7 +108,7 @@ Proof.
   - reflexivity.
   - apply take_list_map.
   - rewrite map_length. destruct (slice_indices _ s e st) as [ks|]; [apply take_list_map|reflexivity].
-  - rewrite map_length. destruct (Nat.eqb _ _); [|reflexivity]. cbn [option_map]. f_equal. apply mask_select_map.
+  - rewrite map_length. destruct (mask_fits _ _); [|reflexivity]. cbn [option_map]. f_equal. apply mask_select_map.
 Qed.
 
 Lemma map_fst_combine {A B} (l1 : list A) : forall l2 : list B, length l1 = length l2 ->
@@ -189,7 +189,7 @@ Proof.
   - discriminate.
   - apply take_list_incl.
   - destruct (slice_indices _ s e st) as [ks|]; [apply take_list_incl|discriminate].
-  - destruct (Nat.eqb _ _); [|discriminate]. intros E. injection E as <-. apply mask_select_incl.
+  - destruct (mask_fits _ _); [|discriminate]. intros E. injection E as <-. apply mask_select_incl.
 Qed.
 
 Lemma np_positions_in_range (idx : np_idx) (n : nat) (ps : list nat) :
@@ -235,6 +235,41 @@ Proof.
   intros H. cbn [np_take]. induction H as [k ks Hk|k ks _ IH]; cbn [map opt_all].
   - rewrite (py_index_none l k Hk). reflexivity.
   - rewrite IH. destruct (py_index l k); reflexivity.
+Qed.
+
+(* a boolean mask (repair of the model: numpy accepts an EMPTY boolean array on an axis of
+   any length, the model used to answer None unless the lengths were equal): accepted iff
+   it has the length of the axis or is empty; it selects the entries under a True, in
+   order; the empty mask selects nothing *)
+Lemma mask_fits_spec (m n : nat) : mask_fits m n = true <-> m = n \/ m = 0%nat.
+Proof.
+  unfold mask_fits. rewrite Bool.orb_true_iff, !Nat.eqb_eq. reflexivity.
+Qed.
+
+Lemma mask_fits_refl (n : nat) : mask_fits n n = true.
+Proof. apply mask_fits_spec. left. reflexivity. Qed.
+
+Lemma np_take_mask_spec {A} (bs : list bool) (l r : list A) :
+  np_take (IdxMask bs) l = Some r <-> (length bs = length l \/ bs = []) /\ r = mask_select bs l.
+Proof.
+  cbn [np_take]. destruct (mask_fits (length bs) (length l)) eqn:E.
+  - apply mask_fits_spec in E. split.
+    + intros H. injection H as <-. split; [|reflexivity].
+      destruct E as [E|E]; [left; exact E|right; apply length_zero_iff_nil; exact E].
+    + intros [_ ->]. reflexivity.
+  - split; [discriminate|]. intros [[H|H] _]; exfalso.
+    + assert (X : mask_fits (length bs) (length l) = true) by (apply mask_fits_spec; left; exact H). congruence.
+    + subst bs. unfold mask_fits in E. cbn [length Nat.eqb] in E. rewrite Bool.orb_true_r in E. discriminate E.
+Qed.
+
+Lemma np_take_mask_empty {A} (l : list A) : np_take (IdxMask []) l = Some [].
+Proof. cbn [np_take]. unfold mask_fits. cbn [length Nat.eqb]. rewrite Bool.orb_true_r. reflexivity. Qed.
+
+Lemma np_take_mask_raises {A} (bs : list bool) (l : list A) :
+  length bs <> length l -> bs <> [] -> np_take (IdxMask bs) l = None.
+Proof.
+  intros H1 H2. destruct (np_take (IdxMask bs) l) as [r|] eqn:E; [|reflexivity].
+  apply np_take_mask_spec in E as [[E|E] _]; contradiction.
 Qed.
 
 (* ---- the metadata dictionary ---- *)
@@ -389,6 +424,24 @@ Section GenericX.
     assert (Et : take_or_nil idx (x_dead px) = dd) by (unfold take_or_nil; rewrite Edd; reflexivity).
     rewrite Et. rewrite (init_probe_each locs _ _ _ _ _ dd _ _ L1 L2 L3 (eq_sym H)).
     destruct sm; reflexivity.
+  Qed.
+
+  (* the empty boolean array as `elements_idx` (numpy accepts it on a probe of any size):
+     the probe with no element, every per-element slot that is not None emptied, the PCS,
+     frequency, bandwidth kept, metadata kept or emptied.  Never a raise. *)
+  Lemma take_or_nil_empty_mask {A} (l : list A) : take_or_nil (IdxMask []) l = [].
+  Proof. unfold take_or_nil. rewrite np_take_mask_empty. reflexivity. Qed.
+
+  Lemma subprobe_empty_mask (n : nat) (sm : bool) (px : probe_x) : wf_len n px ->
+    subprobe N (IdxMask []) sm px =
+    Some (mkPX (mkProbe [] (option_map (fun _ => []) (p_oris (x_core px))) (p_pcs (x_core px)))
+               (option_map (fun _ => []) (x_dims px)) (option_map (fun _ => []) (x_shapes px)) []
+               (x_freq px) (x_bw px) (if sm then x_meta px else []) 0%Z).
+  Proof.
+    intros Hwf. rewrite (subprobe_spec_gen n (IdxMask []) sm px Hwf), np_take_mask_empty, take_or_nil_empty_mask.
+    cbn [length Z.of_nat].
+    destruct (p_oris (x_core px)), (x_dims px), (x_shapes px); cbn [option_map];
+      rewrite ?take_or_nil_empty_mask; reflexivity.
   Qed.
 
   (* a motion only assigns locations / orientations / pcs: the other slots of the object are
